@@ -235,7 +235,7 @@ struct LtWorld : World {
             bool newmem = op.d & 1; size_t cnt = (size_t)-1; qlisttbl_data_t *objs;
             CallerBuf kb(kz);
             { InSut s; objs = t->getmulti(t, (const char *)kb.p, newmem, &cnt); }
-            if (!objs) return R_fail();    // what *numobjs holds after a refused call is not specified
+            if (!objs) return R_fail(num((long long)cnt));    // "numobjs: the number of objects returned is stored"
             Bytes out = num((long long)cnt) + ":";
             for (size_t i = 0; i < cnt; i++) enc(out, Bytes((const char *)objs[i].data, objs[i].size));
             if (objs[cnt].data != nullptr) out += "!no-end-mark";     // the documented loop ends at data == NULL
@@ -407,7 +407,7 @@ Result LtModel::apply(const Op &op) {
     }
     case LT_GETMULTI: {
         auto idx = lookup_order(&k);
-        if (idx.empty()) return R_fail();
+        if (idx.empty()) return R_fail("0");
         Bytes out = num((long long)idx.size()) + ":";
         for (size_t i : idx) enc(out, v[i].second);
         return R_ok(out);
